@@ -168,6 +168,6 @@ class Scipy(AbstractIntegrator):
                         values=np.array([y2], dtype=float),
                     )
                 )
-            y1 = y2
+            y1 = y2.copy()
             t += step_size
         return Result(NoSteadyState())
